@@ -72,7 +72,7 @@ func main() {
 	r.Rule("case = (2-4 registry hosts out of a pool incl. same name/different port, each with own credential {user+password, +refresh token, refresh only, static access token, wrong password, none}, Bearer registries optionally granting anonymous pull (then often with no credential configured), " +
 		"scheme {Basic, Bearer, open, unknown}, optionally redirecting (301/302/307/308, all paths or blobs, before or after authentication) to another registry or to a blob-store host with or without credentials of its own, realm on {own host, foreign token host (possibly shared), another registry's host}; one auth.Client with cache flavour {none, NewCache, NewSingleContextCache}, ForceAttemptOAuth2 on/off). " +
 		"Repository names include host:port/ prefixes and several colons (scope type ends at the first colon, actions start after the last). seq: the caller uses fresh requests, or one http.Header value for all its requests, or clones and re-addresses its previous *http.Request; history of 8-30 ops (requests GET/HEAD/POST/PUT/DELETE/ping/catalog/mount with scope hints {none, exact, oddly written, superset, extra repo, for another host, global}, token expiry, scheme change, realm move). " +
-		"conc: warm-up, then rounds of groups of identical cold requests released together with background traffic to other hosts; the token endpoint or the credential helper is held until all entered Cache.Set, then nobody / the fetch owner (once or twice in a row) / a waiter has its context ended by the harness with context.Canceled or context.DeadlineExceeded (manual contexts, no wall clock); plus cancelled-caller probes (1-3 requests whose context ends in the hook on entering Cache.Set, then a live request for the same key that must complete; refuted by goroutine dumps, not by time), shared-context rounds (6-12 concurrent requests for different repositories under ONE context whose 3/5/6 hints were appended successively, first 401s delivered together), late-join probes (L held inside the fetch, waiter W cancelled and returned, R seen inside Once.Do while the fetch is still held: one fetch and L's token are demanded), unsynchronised storms and, for the single-context cache, probes of 3-8 concurrent requests with different scopes to one host that enter the host-keyed Cache.Set together (spin barrier in the hook). " +
+		"conc: warm-up, then rounds of groups of identical cold requests released together with background traffic to other hosts; the token endpoint or the credential helper is held until all entered Cache.Set, then nobody / the fetch owner (once or twice in a row) / a waiter has its context ended by the harness with context.Canceled or context.DeadlineExceeded (manual contexts, no wall clock); plus cancelled-caller probes (1-3 requests whose context ends in the hook on entering Cache.Set, then a live request for the same key that must complete; refuted by goroutine dumps, not by time), shared-context rounds (6-12 concurrent requests for different repositories under ONE context whose 3/5/6 hints were appended successively, first 401s delivered together), late-join probes (also with L and R naming one scope set in different orders over prefix-related repository names such as app / app-cache; L held inside the fetch, waiter W cancelled and returned, R seen inside Once.Do while the fetch is still held: one fetch and L's token are demanded), unsynchronised storms and, for the single-context cache, probes of 3-8 concurrent requests with different scopes to one host that enter the host-keyed Cache.Set together (spin barrier in the hook). " +
 		"Every request at the innermost transport is scanned for every secret (raw, base64, form/query-decoded); every returned response is matched with the registry model's last answer. " +
 		"distinct = hash(flavour, force, per-registry (scheme, realm kind, credential kind), op / round shapes); non-trivial = at least one send happened while the client held a secret or token of another host, and (seq) a cached token was presented by a request other than the one that fetched it, or the flavour is none, " +
 		"(conc) at least one group had >= 2 live requests and its token fetch or credential lookup was held while all of them were inside Cache.Set (for flavour none: all held at once)")
@@ -209,6 +209,8 @@ type env struct {
 	stop         bool // a violation was recorded: stop the case
 }
 
+var prefixPairs = [][2]string{{"foo", "foo/bar"}, {"app", "app-cache"}, {"lib", "lib2"}, {"img", "img.v2"}, {"base", "base/os-1"}}
+
 var hostPool = []string{"reg-a.test", "reg-b.test:5000", "reg-b.test", "reg-c.test:443", "localhost:5000", "10.0.0.7:8443", "registry.example.org"}
 var authHosts = []string{"auth-x.test", "auth-y.test:8443"}
 
@@ -238,6 +240,13 @@ func newEnv(rng *rand.Rand, phase string, seed int64, i int, res *worker.Result)
 	// after the LAST one
 	e.repos = shuffled(rng, []string{"app", "team/app", "lib/base", "a/b/c"})[:1+rng.IntN(3)]
 	e.repos = append(e.repos, shuffled(rng, []string{"mirror.local:5000/app", "cache:443/ns:stage/app", "proxy:8080/lib/base"})[:rng.IntN(3)]...)
+	// pairs of names one of which is a prefix of the other, the next character
+	// sorting before ':' ('/', '-', '.', a digit): the canonical order of two
+	// scope strings is then not the order of their resource names
+	if rng.IntN(2) == 0 {
+		pp := prefixPairs[rng.IntN(len(prefixPairs))]
+		e.repos = append(e.repos, pp[0], pp[1])
+	}
 	if len(e.repos) < 2 {
 		e.repos = append(e.repos, "lib/extra")
 	}
@@ -1572,6 +1581,48 @@ func lateJoinProbe(e *env, rd int) (string, bool) {
 	rs := e.regs[reg]
 	scheme := e.world.Registry(rs.Host).Scheme
 	sp := e.genRequest(reg, fmt.Sprintf("late%d/%s", rd, e.repos[rng.IntN(len(e.repos))]))
+	specs := [3]*reqSpec{sp, sp, sp} // L, W, R
+	variant := "same"
+	if pp := prefixPairs[rng.IntN(len(prefixPairs))]; scheme == authmodel.SchemeBearer {
+		a, b := fmt.Sprintf("late%d/%s", rd, pp[0]), fmt.Sprintf("late%d/%s", rd, pp[1])
+		v := rng.IntN(3)
+		if v == 1 && e.flavour == "single" && rs.touched {
+			v = 2 // a ping would pass with the host-keyed token and never enter Set
+		}
+		switch v {
+		case 1:
+			// the same scope SET for L, W and R, listed in different orders by their
+			// hints (a ping carries no challenged scope: the key is the hinted set)
+			variant = "permuted-hints"
+			orders := [][]string{{"repository:" + a + ":pull", "repository:" + b + ":pull"}, {"repository:" + b + ":pull", "repository:" + a + ":pull"}}
+			first := rng.IntN(2)
+			global := rng.IntN(2) == 0
+			for j := range specs {
+				c := &reqSpec{Reg: reg, Method: "GET", Path: "/v2/", Shape: "ping/permuted-hints", PerHost: map[string][]string{}, HintAPI: rng.IntN(2)}
+				h := orders[first] // L and W
+				if j == 2 {
+					h = orders[1-first] // R the other way round
+				}
+				if global {
+					c.Global = h
+				} else {
+					c.PerHost[rs.Host] = h
+				}
+				specs[j] = c
+			}
+			sp = specs[0]
+		case 2:
+			// a mount needs scopes of two repositories: the challenge lists them in any order
+			variant = "two-repository-challenge"
+			c := &reqSpec{Reg: reg, Method: "POST", Path: "/v2/" + a + "/blobs/uploads/?mount=sha256:" + strings.Repeat("34", 32) + "&from=" + b,
+				Shape: "mount/prefix-pair", PerHost: map[string][]string{}}
+			if rng.IntN(2) == 0 {
+				c.Path = "/v2/" + b + "/blobs/uploads/?mount=sha256:" + strings.Repeat("34", 32) + "&from=" + a
+			}
+			specs = [3]*reqSpec{c, c, c}
+			sp = c
+		}
+	}
 	g := &group{reg: reg, spec: sp, n: 3, mode: "late", holdPoint: "token", endErr: context.Canceled}
 	if scheme == authmodel.SchemeBasic || rs.CredKind == "access" || rng.IntN(4) == 0 {
 		g.holdPoint = "cred"
@@ -1582,11 +1633,14 @@ func lateJoinProbe(e *env, rd int) (string, bool) {
 	gt := &gate{members: map[int]*member{}, open: make(chan struct{}), heldNow: map[int]bool{}}
 	e.gate = gt
 	defer func() { e.gate = nil }()
-	e.ops = append(e.ops, fmt.Sprintf("late-join probe: L, cancelled W, R = %s %s%s hold=%s", sp.Method, rs.Host, sp.Path, g.holdPoint))
+	e.ops = append(e.ops, fmt.Sprintf("late-join probe (%s): L, cancelled W, R = %s %s%s hold=%s hints L=%v R=%v", variant, sp.Method, rs.Host, sp.Path, g.holdPoint, specs[0].hintedFor(rs.Host), specs[2].hintedFor(rs.Host)))
+	nLaunched := 0
 	launch := func() *member {
 		m := &member{grp: g, done: make(chan struct{})}
+		msp := specs[nLaunched]
+		nLaunched++
 		go func() {
-			m.out = e.do(sp, func(ctx context.Context, corr int) context.Context {
+			m.out = e.do(msp, func(ctx context.Context, corr int) context.Context {
 				c := newManualCtx(ctx)
 				gt.mu.Lock()
 				m.corr, m.mctx = corr, c
@@ -1671,14 +1725,15 @@ func lateJoinProbe(e *env, rd int) (string, bool) {
 	switch {
 	case arrivals() != 1:
 		e.violate("in-flight-fetch-not-shared:second-fetch-after-cancelled-waiter",
-			fmt.Sprintf("late-join probe on %s (%s cache, hold=%s): R entered Cache.Set and Once.Do while L's fetch was in flight (after waiter W had been cancelled), yet %d fetches were started instead of one", rs.Host, e.flavour, g.holdPoint, arrivals()), detail)
+			fmt.Sprintf("late-join probe [%s] on %s (%s cache, hold=%s): R entered Cache.Set and Once.Do while L's fetch was in flight (after waiter W had been cancelled), yet %d fetches were started instead of one (hints L=%v R=%v)", variant, rs.Host, e.flavour, g.holdPoint, arrivals(), specs[0].hintedFor(rs.Host), specs[2].hintedFor(rs.Host)), detail)
 	case scheme == authmodel.SchemeBearer && rs.CredKind != "access" && r.out.err == nil && (stR.Fetches != 0 || !e.presentedFetchOf(l.corr, stR)):
 		e.violate("in-flight-fetch-not-shared:late-joiner-has-other-token",
 			fmt.Sprintf("late-join probe on %s (%s cache): R waited on L's in-flight fetch but did not present the token that fetch produced (own fetches: %d)", rs.Host, e.flavour, stR.Fetches), detail)
 	default:
 		e.count("late_joiners_sharing_the_inflight_fetch", 1)
 	}
-	return fmt.Sprintf("late[%s/%s/%s]", scheme, rs.CredKind, g.holdPoint), true
+	e.count("late_join_probes_"+variant, 1)
+	return fmt.Sprintf("late[%s/%s/%s/%s]", scheme, rs.CredKind, g.holdPoint, variant), true
 }
 
 // presentedFetchOf reports whether the credential on the request's last send is
